@@ -242,3 +242,48 @@ Proof.
   pose proof (halves_are_ceil_floor _ _ H).
   unfold right_size, overlap_end, overlap_start in *. lia.
 Qed.
+
+(* ---------- termination with a forced split count ---------- *)
+Definition ov_ok2 (ov : Z -> Z) : Prop := forall m, 2 <= m -> 0 <= ov m /\ m - ov m >= 2.
+
+Lemma pow2_half k n : 1 <= k -> 2 ^ k <= n -> 2 ^ (k - 1) <= n / 2.
+Proof.
+  intros Hk H. replace k with (Z.succ (k - 1)) in H by lia. rewrite Z.pow_succ_r in H by lia.
+  apply Z.div_le_lower_bound; lia.
+Qed.
+
+Lemma nsplits_nonneg s : 0 <= nsplits s.
+Proof. induction s as [n|n l IHl r IHr]; cbn [nsplits]; lia. Qed.
+
+Lemma build_terminates_quota L ov q : 1 <= L -> ov_ok2 ov ->
+  forall fuel cnt n, 1 <= n -> n <= Z.of_nat fuel -> 2 ^ (Z.max 0 (q - cnt)) <= n ->
+  exists s c, build fuel L ov (Some q) cnt n = Ok s c.
+Proof.
+  intros HL Hov. induction fuel as [|f IH]; intros cnt n Hn Hf Hp; [lia|].
+  cbn [build]. destruct ((n <=? L) && (q <=? cnt)) eqn:E; [eexists; eexists; reflexivity|].
+  assert (Hn2 : 2 <= n).
+  { apply andb_false_iff in E. destruct E as [E|E].
+    - apply Z.leb_gt in E. lia.
+    - apply Z.leb_gt in E. assert (1 <= Z.max 0 (q - cnt)) by lia.
+      assert (2 ^ 1 <= 2 ^ Z.max 0 (q - cnt)) by (apply Z.pow_le_mono_r; lia). lia. }
+  destruct (Hov n Hn2) as [Ho0 Ho2].
+  destruct (children_smaller n (ov n) Ho0 Ho2) as (Hr1 & Hrl & Hln).
+  replace ((left_size n (ov n) <=? 0) || (right_size n (ov n) <=? 0)) with false
+    by (symmetry; apply orb_false_iff; split; apply Z.leb_gt; lia).
+  assert (Hhalf : n / 2 <= right_size n (ov n)).
+  { unfold right_size, overlap_end, overlap_start, left_unique, remaining. lia. }
+  assert (Hk' : 2 ^ Z.max 0 (q - (cnt + 1)) <= right_size n (ov n)).
+  { destruct (Z.le_gt_cases (q - cnt) 0) as [Hle|Hgt].
+    - rewrite Z.max_l by lia. cbn. lia.
+    - rewrite Z.max_r in Hp by lia. destruct (Z.eq_dec (q - cnt) 1) as [E1|E1].
+      + rewrite Z.max_l by lia. cbn. lia.
+      + rewrite Z.max_r by lia. replace (q - (cnt + 1)) with (q - cnt - 1) by lia.
+        eapply Z.le_trans; [apply pow2_half; [lia|exact Hp]|exact Hhalf]. }
+  destruct (IH (cnt + 1) (left_size n (ov n)) ltac:(lia) ltac:(lia) ltac:(lia)) as (l & c1 & El).
+  rewrite El. pose proof (build_count _ _ _ _ _ _ _ _ El) as [Ec1 _].
+  pose proof (nsplits_nonneg l) as Hns.
+  assert (Hk'' : 2 ^ Z.max 0 (q - c1) <= right_size n (ov n)).
+  { eapply Z.le_trans; [|exact Hk']. apply Z.pow_le_mono_r; lia. }
+  destruct (IH c1 (right_size n (ov n)) ltac:(lia) ltac:(lia) Hk'') as (r & c2 & Er).
+  rewrite Er. eexists; eexists; reflexivity.
+Qed.
